@@ -277,9 +277,17 @@ def _replay_one(graph, factory, own):
         if not ok:
             continue
         REPLAY['done'] = True
-        v = walk(graph, factory(), labels, own, st, start=i)
-        print('REPLAY: %d steps executed on the real code: %s' % (len(labels), 'VIOLATION reproduced at step %s facets=%s' % (
-            v['failing_step'], v.get('facets')) if v else 'no divergence (the history now conforms)'))
+        # adapters vary what the model leaves open from one behaviour to the next (hash ranks, truth values, value
+        # equality, class layout, identifiers ...) by a per-adapter counter: the history is executed under every
+        # variant of the cycle until one diverges
+        adapter = factory()
+        v = None
+        for variant in range(24):
+            v = walk(graph, adapter, labels, own, st, start=i)
+            if v:
+                break
+        print('REPLAY: %d steps executed on the real code: %s' % (len(labels), 'VIOLATION reproduced at step %s facets=%s (variant %d)' % (
+            v['failing_step'], v.get('facets'), variant + 1) if v else 'no divergence in 24 variants (the history now conforms)'))
         if v:
             st.n_violations += 1
             st.violations.append(v)
@@ -320,6 +328,8 @@ def run_paths(graph, factory, paths, own=None, procs=None, chunk=200, max_violat
     def chunks():
         buf = []
         for p in paths:
+            if total.n_violations >= max_violations:
+                return          # enough counterexamples: stop FEEDING (see below), what is queued runs to its end
             buf.append(p)
             if len(buf) >= chunk:
                 yield buf
@@ -334,10 +344,16 @@ def run_paths(graph, factory, paths, own=None, procs=None, chunk=200, max_violat
                 break
         return total
     ctx = mp.get_context('fork')
-    with ctx.Pool(procs) as pool:
+    # Never terminate() a pool whose workers may be writing results: a worker killed while it holds the result queue's
+    # lock leaves the pool's handler thread blocked for ever (seen once in ~10 runs with dense violations).  The task
+    # generator stops feeding instead; the pool is drained, closed and joined.
+    pool = ctx.Pool(procs)
+    try:
         for st in pool.imap_unordered(_worker, chunks()):
             total.merge(st)
-            if total.n_violations >= max_violations:
-                pool.terminate()
-                break
+        pool.close()
+        pool.join()
+    except BaseException:
+        pool.terminate()
+        raise
     return total
